@@ -6,15 +6,20 @@ Import ListNotations.
 Open Scope string_scope.
 Open Scope list_scope.
 
-Inductive ckind := CId | CInt | CFloat | CStr | CList.
+Inductive ckind := CId | CInt | CFloat | CStr | CList | CBool.
 
 Definition conv_k (k: ckind) (v: pv) : pv :=
   match k, v with
   | CId, v => v
   | CInt, PInt z => PInt z            (* int(3) *)
   | CInt, PFloat z => PInt z          (* int(3.0) *)
+  | CInt, PBool b => PInt (if b then 1 else 0)%Z      (* int(True) *)
   | CFloat, PInt z => PFloat z        (* float(3) *)
   | CFloat, PFloat z => PFloat z
+  | CFloat, PBool b => PFloat (if b then 1 else 0)%Z
+  | CBool, PBool b => PBool b         (* bool(value) *)
+  | CBool, PInt z => PBool (negb (Z.eqb z 0))
+  | CBool, PFloat z => PBool (negb (Z.eqb z 0))
   | CStr, PStr s => PStr s
   | CList, PList l => PList l         (* [int(value) for value in value] on ints *)
   | _, _ => PStr "<outside the generated value domain>"
@@ -33,6 +38,7 @@ Fixpoint zlist_eqb (a b: list Z) : bool :=
 Definition pv_eqb (a b: pv) : bool :=
   match a, b with
   | PNone, PNone => true
+  | PBool x, PBool y => Bool.eqb x y
   | PInt x, PInt y => Z.eqb x y
   | PFloat x, PFloat y => Z.eqb x y
   | PStr x, PStr y => String.eqb x y
